@@ -24,13 +24,13 @@ def run(ctx: Ctx) -> None:
     ctx.rule("R-SINK", "written value == value returned by reformat_text; formatter input == value read")
     ctx.rule("R-USAGE", "usage errors precede every write-capable call on all paths; main maps them to non-zero exits")
     ctx.rule("R-LOOPSTATE", "no variable is live across iterations of the per-file loop")
-    optflow.check_parse_args(ctx)
-    optflow.check_main_call(ctx)
-    optflow.check_call_edges(ctx)
-    optflow.check_sibling_sites(ctx)
-    optflow.check_consumers(ctx)
-    optflow.check_sinks(ctx)
-    optflow.check_loop_state(ctx)
-    write.check_usage_errors(ctx)
+    ctx.run(optflow.check_parse_args)
+    ctx.run(optflow.check_main_call)
+    ctx.run(optflow.check_call_edges)
+    ctx.run(optflow.check_sibling_sites)
+    ctx.run(optflow.check_consumers)
+    ctx.run(optflow.check_sinks)
+    ctx.run(optflow.check_loop_state)
+    ctx.run(write.check_usage_errors)
     ctx.assume("CPython argparse semantics for store_true / type=int / choices; dataclass __init__ binds keywords to fields by name")
     ctx.assume("C13 (call isolation) for 'each file gets the result it would get alone'")
